@@ -15,6 +15,14 @@
 (*   [k |-> "name", n], [k |-> "int", v], [k |-> "bool", v]                *)
 (*   [k |-> "bin", op, l, r]   [k |-> "un", op, a]                         *)
 (*   [k |-> "call", f, args]   [k |-> "idx", e, i]   [k |-> "fld", e, f]   *)
+(* and the other PRIMARY expressions ("all atom kinds"): a postfix form    *)
+(* binds to the primary directly in front of it, whatever its kind:        *)
+(*   [k |-> "float", v (its text)]  [k |-> "str", v]  [k |-> "nil"]        *)
+(*   [k |-> "tuple", es]  [k |-> "list", es]  [k |-> "blob", fields]       *)
+(*   [k |-> "fn", pure, params, ret, body]  [k |-> "if", arms]             *)
+(*   [k |-> "case", e, arms, els]      bodies: <<[k |-> "expr"|"ret", e]>> *)
+(*   [k |-> "pcall", f, args]  a call written `f' x` (a "call" in the      *)
+(*                             implementation's tree: see Strip)           *)
 (* Texts are sequences of token spellings.                                 *)
 (***************************************************************************)
 EXTENDS Naturals, Integers, Sequences, FiniteSets, TLC
@@ -42,8 +50,23 @@ Call(f, args) == [k |-> "call", f |-> f, args |-> args]
 Idx(e, i) == [k |-> "idx", e |-> e, i |-> IntN(i)]
 Fld(e, f) == [k |-> "fld", e |-> e, f |-> f]
 
-IsAtom(t) == t.k \in {"name", "int", "bool"}
-IsPostfix(t) == t.k \in {"call", "idx", "fld"}
+FloatN(s) == [k |-> "float", v |-> s]
+StrN(s)   == [k |-> "str", v |-> s]
+NilN      == [k |-> "nil"]
+TupleN(es) == [k |-> "tuple", es |-> es]
+ListN(es)  == [k |-> "list", es |-> es]
+BlobN(fs)  == [k |-> "blob", fields |-> fs]                \* fs: <<[f |-> name, e |-> tree], ..>> (written `A { f : e , .. }`)
+ExprS(e) == [k |-> "expr", e |-> e]
+RetS(e)  == [k |-> "ret", e |-> e]
+FnN(params, ret, body) == [k |-> "fn", pure |-> FALSE, params |-> params, ret |-> ret, body |-> body]
+IfN(c, a, b) == [k |-> "if", arms |-> <<[c |-> c, body |-> <<ExprS(a)>>], [else |-> TRUE, body |-> <<ExprS(b)>>]>>]
+CaseN(e, v, a, b) == [k |-> "case", e |-> e, arms |-> <<[v |-> v, body |-> <<ExprS(a)>>]>>, els |-> <<ExprS(b)>>]
+PCall(f, args) == [k |-> "pcall", f |-> f, args |-> args]
+
+IsAtom(t) == t.k \in {"name", "int", "bool", "float", "str", "nil"}
+IsPostfix(t) == t.k \in {"call", "idx", "fld", "pcall"}
+\* primaries that carry their own brackets / keywords: never parenthesised by the table
+IsBracketed(t) == t.k \in {"tuple", "list", "blob", "fn", "if", "case"}
 
 LevelOf(t) == CASE t.k = "bin" -> Level(t.op)
                 [] t.k = "un"  -> UnaryLevel
@@ -56,80 +79,218 @@ Paren(s) == <<"(">> \o s \o <<")">>
 AtomText(t) == CASE t.k = "name" -> t.n
                  [] t.k = "int"  -> ToString(t.v)
                  [] t.k = "bool" -> IF t.v THEN "true" ELSE "false"
+                 [] t.k = "float" -> t.v
+                 [] t.k = "str"  -> "\"" \o t.v \o "\""
+                 [] t.k = "nil"  -> "nil"
 
-RECURSIVE Min(_)
+\* Txt(t, m): the text of t in mode m:
+\*   "min"   only the parentheses the table requires
+\*   "full"  every operator / postfix form and every bracketed primary in parentheses (atoms bare)
+\*   "fulla" as "full", and literal atoms in parentheses as well (`( - ( - ( 2.5 ) ) )`)
+RECURSIVE Txt(_, _)
 \* operand of a binary operator of level p on side s ("l" or "r")
 MinOperand(t, p, s) ==
-    LET txt == Min(t) IN
+    LET txt == Txt(t, "min") IN
     CASE t.k = "bin" -> IF Level(t.op) < p \/ (s = "r" /\ Level(t.op) = p) THEN Paren(txt) ELSE txt
       [] t.k = "un"  -> IF p = 6 THEN Paren(txt) ELSE txt       \* open grouping: always explicit
       [] OTHER       -> txt
 \* operand of a unary operator
-MinUnOperand(t) == IF t.k = "bin" THEN Paren(Min(t)) ELSE Min(t)
-\* base of a postfix form: a name or another postfix form stands bare
-MinBase(t) == IF t.k = "name" \/ IsPostfix(t) THEN Min(t) ELSE Paren(Min(t))
+MinUnOperand(t) == IF t.k = "bin" THEN Paren(Txt(t, "min")) ELSE Txt(t, "min")
+\* base of a postfix form: every primary and every postfix form stands bare, only operator forms need parentheses
+Base(t, m) == IF m = "min" /\ t.k \in {"bin", "un"} THEN Paren(Txt(t, m)) ELSE Txt(t, m)
 
-RECURSIVE MinArgs(_)
-MinArgs(args) == IF args = <<>> THEN <<>>
-                 ELSE IF Len(args) = 1 THEN Min(args[1])
-                 ELSE Min(args[1]) \o <<",">> \o MinArgs(Tail(args))
+RECURSIVE CommaSep(_, _)
+CommaSep(es, m) == IF es = <<>> THEN <<>>
+                   ELSE IF Len(es) = 1 THEN Txt(es[1], m)
+                   ELSE Txt(es[1], m) \o <<",">> \o CommaSep(Tail(es), m)
 
-Min(t) ==
-    CASE IsAtom(t)     -> <<AtomText(t)>>
-      [] t.k = "bin"   -> MinOperand(t.l, Level(t.op), "l") \o <<t.op>> \o MinOperand(t.r, Level(t.op), "r")
-      [] t.k = "un"    -> <<t.op>> \o MinUnOperand(t.a)
-      [] t.k = "call"  -> MinBase(t.f) \o <<"(">> \o MinArgs(t.args) \o <<")">>
-      [] t.k = "idx"   -> MinBase(t.e) \o <<"[", ToString(t.i.v), "]">>
-      [] t.k = "fld"   -> MinBase(t.e) \o <<".", t.f>>
+StmtTxt(st, m) == IF st.k = "ret" THEN <<"ret">> \o Txt(st.e, m) ELSE Txt(st.e, m)
+BodyTxt(body, m) == IF body = <<>> THEN <<>> ELSE StmtTxt(body[1], m)          \* bodies hold at most one statement
 
-RECURSIVE Full(_)
-RECURSIVE FullArgs(_)
-FullArgs(args) == IF args = <<>> THEN <<>>
-                  ELSE IF Len(args) = 1 THEN Full(args[1])
-                  ELSE Full(args[1]) \o <<",">> \o FullArgs(Tail(args))
-FullBase(t) == IF t.k = "name" THEN Full(t) ELSE Full(t)   \* composite bases are already parenthesised by Full
-Full(t) ==
-    CASE IsAtom(t)     -> <<AtomText(t)>>
-      [] t.k = "bin"   -> Paren(Full(t.l) \o <<t.op>> \o Full(t.r))
-      [] t.k = "un"    -> Paren(<<t.op>> \o Full(t.a))
-      [] t.k = "call"  -> Paren(FullBase(t.f) \o <<"(">> \o FullArgs(t.args) \o <<")">>)
-      [] t.k = "idx"   -> Paren(FullBase(t.e) \o <<"[", ToString(t.i.v), "]">>)
-      [] t.k = "fld"   -> Paren(FullBase(t.e) \o <<".", t.f>>)
+RECURSIVE ParamsTxt(_)
+ParamsTxt(ps) == IF ps = <<>> THEN <<>>
+                 ELSE (IF ps[1].ty = "*" THEN <<ps[1].n>> ELSE <<ps[1].n, ":", ps[1].ty>>)
+                      \o (IF Len(ps) > 1 THEN <<",">> ELSE <<>>) \o ParamsTxt(Tail(ps))
+RECURSIVE FieldsTxt(_, _)
+FieldsTxt(fs, m) == IF fs = <<>> THEN <<>>
+                    ELSE <<fs[1].f, ":">> \o Txt(fs[1].e, m) \o (IF Len(fs) > 1 THEN <<",">> ELSE <<>>) \o FieldsTxt(Tail(fs), m)
+RECURSIVE IfArmsTxt(_, _, _)
+IfArmsTxt(arms, i, m) ==
+    IF i > Len(arms) THEN <<"end">>
+    ELSE IF "c" \in DOMAIN arms[i]
+         THEN <<IF i = 1 THEN "if" ELSE "elif">> \o Txt(arms[i].c, m) \o <<"do">> \o BodyTxt(arms[i].body, m) \o IfArmsTxt(arms, i + 1, m)
+         ELSE <<"else">> \o BodyTxt(arms[i].body, m) \o <<"end">>               \* the else block ends the expression
+\* every arm's block is closed by `end`, except that an `else` right after the last arm closes it instead
+RECURSIVE CaseArmsTxt(_, _, _, _)
+CaseArmsTxt(arms, i, hasElse, m) ==
+    IF i > Len(arms) THEN <<>>
+    ELSE <<arms[i].v>> \o (IF "bind" \in DOMAIN arms[i] THEN <<arms[i].bind>> ELSE <<>>) \o <<"->">> \o BodyTxt(arms[i].body, m)
+         \o (IF i = Len(arms) /\ hasElse THEN <<>> ELSE <<"end">>) \o CaseArmsTxt(arms, i + 1, hasElse, m)
+
+BracketedTxt(t, m) ==
+    CASE t.k = "tuple" -> <<"(">> \o CommaSep(t.es, m) \o (IF Len(t.es) = 1 THEN <<",">> ELSE <<>>) \o <<")">>
+      [] t.k = "list"  -> <<"[">> \o CommaSep(t.es, m) \o <<"]">>
+      [] t.k = "blob"  -> <<"A", "{">> \o FieldsTxt(t.fields, m) \o <<"}">>
+      [] t.k = "fn"    -> <<"fn">> \o ParamsTxt(t.params)
+                          \o (CASE t.ret = "void" -> <<"do">> [] t.ret = "*" -> <<"->">> [] OTHER -> <<"->", t.ret, "do">>)
+                          \o BodyTxt(t.body, m) \o <<"end">>
+      [] t.k = "if"    -> IfArmsTxt(t.arms, 1, m)
+      [] t.k = "case"  -> <<"case">> \o Txt(t.e, m) \o <<"do">> \o CaseArmsTxt(t.arms, 1, "els" \in DOMAIN t, m)
+                          \o (IF "els" \in DOMAIN t THEN <<"else">> \o BodyTxt(t.els, m) \o <<"end">> ELSE <<>>) \o <<"end">>
+
+Txt(t, m) ==
+    LET P(x) == IF m = "min" THEN x ELSE Paren(x) IN
+    CASE IsAtom(t)     -> IF m = "fulla" /\ t.k # "name" THEN Paren(<<AtomText(t)>>) ELSE <<AtomText(t)>>
+      [] IsBracketed(t) -> P(BracketedTxt(t, m))
+      [] t.k = "bin"   -> IF m = "min" THEN MinOperand(t.l, Level(t.op), "l") \o <<t.op>> \o MinOperand(t.r, Level(t.op), "r")
+                          ELSE Paren(Txt(t.l, m) \o <<t.op>> \o Txt(t.r, m))
+      [] t.k = "un"    -> IF m = "min" THEN <<t.op>> \o MinUnOperand(t.a) ELSE Paren(<<t.op>> \o Txt(t.a, m))
+      [] t.k = "call"  -> P(Base(t.f, m) \o <<"(">> \o CommaSep(t.args, m) \o <<")">>)
+      [] t.k = "pcall" -> P(Base(t.f, m) \o <<"'">> \o CommaSep(t.args, m))
+      [] t.k = "idx"   -> P(Base(t.e, m) \o <<"[", ToString(t.i.v), "]">>)
+      [] t.k = "fld"   -> P(Base(t.e, m) \o <<".", t.f>>)
+
+Min(t) == Txt(t, "min")
+Full(t) == Txt(t, "full")
+FullA(t) == Txt(t, "fulla")
+
+\* the implementation's tree has one kind of call: `f' x` is recorded as a "call"
+RECURSIVE Strip(_)
+RECURSIVE StripSeq(_)
+StripSeq(sq) == IF sq = <<>> THEN <<>> ELSE <<Strip(sq[1])>> \o StripSeq(Tail(sq))
+RECURSIVE StripFields(_)
+StripFields(fs) == IF fs = <<>> THEN <<>> ELSE <<[f |-> fs[1].f, e |-> Strip(fs[1].e)]>> \o StripFields(Tail(fs))
+RECURSIVE StripArms(_)
+StripArms(arms) == IF arms = <<>> THEN <<>>
+                   ELSE <<IF "c" \in DOMAIN arms[1] THEN [arms[1] EXCEPT !.c = Strip(@), !.body = StripSeq(@)]
+                          ELSE [arms[1] EXCEPT !.body = StripSeq(@)]>> \o StripArms(Tail(arms))
+Strip(t) ==
+    CASE IsAtom(t)      -> t
+      [] t.k = "bin"    -> Bin(t.op, Strip(t.l), Strip(t.r))
+      [] t.k = "un"     -> Un(t.op, Strip(t.a))
+      [] t.k \in {"call", "pcall"} -> Call(Strip(t.f), StripSeq(t.args))
+      [] t.k = "idx"    -> [t EXCEPT !.e = Strip(@)]
+      [] t.k = "fld"    -> [t EXCEPT !.e = Strip(@)]
+      [] t.k \in {"tuple", "list"} -> [t EXCEPT !.es = StripSeq(@)]
+      [] t.k = "blob"   -> [t EXCEPT !.fields = StripFields(@)]
+      [] t.k = "fn"     -> [t EXCEPT !.body = StripSeq(@)]
+      [] t.k \in {"expr", "ret"} -> [t EXCEPT !.e = Strip(@)]
+      [] t.k = "if"     -> [t EXCEPT !.arms = StripArms(@)]
+      [] t.k = "case"   -> IF "els" \in DOMAIN t THEN [t EXCEPT !.e = Strip(@), !.arms = StripArms(@), !.els = StripSeq(@)]
+                           ELSE [t EXCEPT !.e = Strip(@), !.arms = StripArms(@)]
 
 ---------------------------------------------------------------------------
 (* Reference parser: precedence climbing over a token sequence.
-   Every parse function returns <<tree, index of the next unread token>>. *)
-Digits == {"0", "1", "2", "3", "4", "5", "6", "7", "8", "9"}
-IsIntTok(s) == s \in {ToString(i) : i \in 0..9}
-IsNameTok(s) == s \in {"a", "b", "c", "d", "f", "g", "x", "y"}
+   Every parse function returns <<tree, index of the next unread token>>.
+   A primary is a literal, a name, a parenthesised expression, a tuple, a list, a blob literal, a function literal,
+   an if-expression or a case-expression; the postfix forms ( .. ) [ .. ] . x ' attach to ANY primary, as often as
+   they are written, before any unary or binary operator sees it. *)
+IntToks == 0..20
+IsIntTok(s) == s \in {ToString(i) : i \in IntToks}
+NameToks == {"a", "b", "c", "d", "f", "g", "x", "y", "s", "v", "p", "q", "z", "n", "m", "h", "tp", "tq", "nt", "nu", "inc", "dbl", "mk", "pp"}
+IsNameTok(s) == s \in NameToks
+FloatToks == {"2.5", "0.25", "1.0", "1.5", "0.5", "2.0"}
+StrToks == {"\"s\""}
+VariantToks == {"X", "Y", "Z"}
+BlobToks == {"A"}
+TypeToks == {"int", "bool", "float", "str", "void"}
 Tok(toks, i) == IF i <= Len(toks) THEN toks[i] ELSE "<eof>"
-IntOfTok(s) == CHOOSE i \in 0..9 : ToString(i) = s
+IntOfTok(s) == CHOOSE i \in IntToks : ToString(i) = s
 
 RECURSIVE ParseExpr(_, _, _)
 RECURSIVE ParsePrefix(_, _)
 RECURSIVE ParsePostfix(_, _, _)
-RECURSIVE ParseArgs(_, _, _)
+RECURSIVE ParseSeq(_, _, _, _)
 RECURSIVE ClimbLoop(_, _, _, _)
+RECURSIVE ParseIf(_, _, _)
+RECURSIVE ParseCaseArms(_, _, _, _)
+RECURSIVE ParseParams(_, _, _)
+RECURSIVE ParseFields(_, _, _)
 
-ParseArgs(toks, i, acc) ==
-    IF Tok(toks, i) = ")" THEN <<acc, i + 1>>
+\* expressions separated by commas up to the closing token
+ParseSeq(toks, i, close, acc) ==
+    IF Tok(toks, i) = close THEN <<acc, i + 1>>
     ELSE LET r == ParseExpr(toks, i, 1) IN
-         IF Tok(toks, r[2]) = "," THEN ParseArgs(toks, r[2] + 1, Append(acc, r[1]))
-         ELSE <<Append(acc, r[1]), r[2] + 1>>      \* must be ")"
+         IF Tok(toks, r[2]) = "," THEN ParseSeq(toks, r[2] + 1, close, Append(acc, r[1]))
+         ELSE <<Append(acc, r[1]), r[2] + 1>>      \* must be the closing token
+ParseArgs(toks, i, acc) == ParseSeq(toks, i, ")", acc)
+
+\* one statement of a body: `ret e` or `e`
+ParseStmt(toks, i) ==
+    IF Tok(toks, i) = "ret" THEN LET r == ParseExpr(toks, i + 1, 1) IN <<RetS(r[1]), r[2]>>
+    ELSE LET r == ParseExpr(toks, i, 1) IN <<ExprS(r[1]), r[2]>>
+
+\* i stands on `if` / `elif`
+ParseIf(toks, i, arms) ==
+    LET c == ParseExpr(toks, i + 1, 1)               \* c[2] stands on `do`
+        b == ParseStmt(toks, c[2] + 1)
+        arms2 == Append(arms, [c |-> c[1], body |-> <<b[1]>>]) IN
+    CASE Tok(toks, b[2]) = "elif" -> ParseIf(toks, b[2], arms2)
+      [] Tok(toks, b[2]) = "else" -> LET e == ParseStmt(toks, b[2] + 1) IN
+                                     <<[k |-> "if", arms |-> Append(arms2, [else |-> TRUE, body |-> <<e[1]>>])], e[2] + 1>>
+      [] OTHER -> <<[k |-> "if", arms |-> arms2], b[2] + 1>>                     \* `end`
+
+\* i stands on a variant name, on `else` or on the closing `end`
+ParseCaseArms(toks, i, scrut, arms) ==
+    CASE Tok(toks, i) = "end"  -> <<[k |-> "case", e |-> scrut, arms |-> arms], i + 1>>
+      [] Tok(toks, i) = "else" -> LET e == ParseStmt(toks, i + 1) IN              \* `end` of the block, `end` of the case
+                                  <<[k |-> "case", e |-> scrut, arms |-> arms, els |-> <<e[1]>>], e[2] + 2>>
+      [] OTHER -> LET hasBind == Tok(toks, i + 1) # "->"
+                      j == IF hasBind THEN i + 3 ELSE i + 2
+                      b == ParseStmt(toks, j)
+                      arm == IF hasBind THEN [v |-> toks[i], bind |-> toks[i + 1], body |-> <<b[1]>>]
+                             ELSE [v |-> toks[i], body |-> <<b[1]>>] IN
+                  ParseCaseArms(toks, IF Tok(toks, b[2]) = "end" THEN b[2] + 1 ELSE b[2], scrut, Append(arms, arm))
+
+ParseParams(toks, i, acc) ==
+    IF IsNameTok(Tok(toks, i))
+    THEN LET typed == Tok(toks, i + 1) = ":"
+             j == IF typed THEN i + 3 ELSE i + 1 IN
+         ParseParams(toks, IF Tok(toks, j) = "," THEN j + 1 ELSE j,
+                     Append(acc, [n |-> toks[i], ty |-> IF typed THEN toks[i + 2] ELSE "*"]))
+    ELSE <<acc, i>>
+
+ParseFn(toks, i) ==
+    LET ps == ParseParams(toks, i + 1, <<>>)
+        j == ps[2]
+        hd == CASE Tok(toks, j) = "do" -> <<"void", j + 1>>
+                [] Tok(toks, j) = "->" /\ Tok(toks, j + 1) \in TypeToks -> <<toks[j + 1], j + 3>>     \* `-> ty do`
+                [] OTHER -> <<"*", j + 1>>                                                             \* `->` body
+        b == ParseStmt(toks, hd[2]) IN
+    <<FnN(ps[1], hd[1], <<b[1]>>), b[2] + 1>>
+
+\* i stands on a field name or on `}`
+ParseFields(toks, i, acc) ==
+    IF Tok(toks, i) = "}" THEN <<BlobN(acc), i + 1>>
+    ELSE LET r == ParseExpr(toks, i + 2, 1) IN
+         ParseFields(toks, IF Tok(toks, r[2]) = "," THEN r[2] + 1 ELSE r[2], Append(acc, [f |-> toks[i], e |-> r[1]]))
 
 ParsePostfix(toks, base, i) ==
     CASE Tok(toks, i) = "(" -> LET r == ParseArgs(toks, i + 1, <<>>) IN ParsePostfix(toks, Call(base, r[1]), r[2])
       [] Tok(toks, i) = "[" -> ParsePostfix(toks, Idx(base, IntOfTok(toks[i + 1])), i + 3)
       [] Tok(toks, i) = "." -> ParsePostfix(toks, Fld(base, toks[i + 1]), i + 2)
+      [] Tok(toks, i) = "'" -> LET r == ParseExpr(toks, i + 1, 1) IN <<PCall(base, <<r[1]>>), r[2]>>    \* takes the rest
       [] OTHER -> <<base, i>>
 
 ParsePrefix(toks, i) ==
     LET s == Tok(toks, i) IN
-    CASE s = "("        -> LET r == ParseExpr(toks, i + 1, 1) IN ParsePostfix(toks, r[1], r[2] + 1)
+    CASE s = "("        -> LET r == ParseExpr(toks, i + 1, 1) IN
+                           IF Tok(toks, r[2]) = ","
+                           THEN LET rest == ParseSeq(toks, r[2] + 1, ")", <<r[1]>>) IN ParsePostfix(toks, TupleN(rest[1]), rest[2])
+                           ELSE ParsePostfix(toks, r[1], r[2] + 1)
+      [] s = "["        -> LET r == ParseSeq(toks, i + 1, "]", <<>>) IN ParsePostfix(toks, ListN(r[1]), r[2])
+      [] s = "if"       -> LET r == ParseIf(toks, i, <<>>) IN ParsePostfix(toks, r[1], r[2])
+      [] s = "case"     -> LET e == ParseExpr(toks, i + 1, 1)
+                               r == ParseCaseArms(toks, e[2] + 1, e[1], <<>>) IN ParsePostfix(toks, r[1], r[2])
+      [] s = "fn"       -> LET r == ParseFn(toks, i) IN ParsePostfix(toks, r[1], r[2])
+      [] s \in BlobToks /\ Tok(toks, i + 1) = "{" -> LET r == ParseFields(toks, i + 2, <<>>) IN ParsePostfix(toks, r[1], r[2])
       [] s \in UnOps    -> LET r == ParsePrefix(toks, i + 1) IN <<Un(s, r[1]), r[2]>>
-      [] s = "true"     -> <<BoolN(TRUE), i + 1>>
-      [] s = "false"    -> <<BoolN(FALSE), i + 1>>
-      [] IsIntTok(s)    -> <<IntN(IntOfTok(s)), i + 1>>
+      [] s = "true"     -> ParsePostfix(toks, BoolN(TRUE), i + 1)
+      [] s = "false"    -> ParsePostfix(toks, BoolN(FALSE), i + 1)
+      [] s = "nil"      -> ParsePostfix(toks, NilN, i + 1)
+      [] IsIntTok(s)    -> ParsePostfix(toks, IntN(IntOfTok(s)), i + 1)
+      [] s \in FloatToks -> ParsePostfix(toks, FloatN(s), i + 1)
+      [] s \in StrToks  -> ParsePostfix(toks, StrN(SubSeq(s, 2, Len(s) - 1)), i + 1)
       [] IsNameTok(s)   -> ParsePostfix(toks, Name(s), i + 1)
 
 ClimbLoop(toks, lhs, i, minLevel) ==
